@@ -44,28 +44,28 @@ CLAIMED = {
         "engine": "observer",
         "design_ref": "DESIGN.md §4.3, §7 C04",
         "text": 'Observer.tla (registry under a re-entrant lock, emitter threads, dispatcher with copied handler set and membership re-check, API calls as their real step sequences, callbacks calling the API re-entrantly) is model-checked exhaustively by TLC for the dispatch/callback program families; the real BaseObserver runs under the deterministic scheduler (bounded-preemption DFS on the delivery/removal families, random programs) and TLC validates every black-box trace (call/ret, queued, cb, quiescent) against ObserverTrace.tla: a reference dispatcher that snapshots the handler set when it takes an event and must call each snapshot member exactly once, in queue order, with linearization points left to TLC.',
-        "note": 'Trusted: detsched shims; scripted emitters and recording handlers are harness-side subclasses of the public EventEmitter / FileSystemEventHandler. Bounded: <=2 application threads, <=3 handlers, 2 watches, <=3 events per emitter, preemption bound 1 (quick) / 2 (thorough). Clauses owned by a sibling property are left to its check.',
+        "note": 'Trusted: detsched shims; scripted emitters and recording handlers are harness-side subclasses of the public EventEmitter / FileSystemEventHandler. Bounded: <=2 application threads, <=3 handlers, 2 watches (10 spellings of 5 watch identities on one path in the identity family), <=3 events per emitter, preemption bound 1 (quick) / 2 (thorough). Clauses owned by a sibling property are left to its check.',
         "technique": "TLA+ model checking (TLC, safety + liveness) + trace validation of real executions under a deterministic scheduler + spec-to-code replay of Observer.tla walks on the real BaseObserver",
     },
     "C05": {
         "engine": "observer",
         "design_ref": "DESIGN.md §4.3, §7 C05",
         "text": 'Same model and engine as C04; program family: removal by another thread and re-entrantly from a callback at every position of a 3-event stream, unschedule/unschedule_all/stop. ObserverTrace.tla bans a (handler, watch) pair at the return of the removing call (unless a registering call is in flight) and silences the emitters it removed; a callback or queued event after that is unexplainable. Observer.tla carries C05_NoCallAfterReturn / C05_EmitterStoppedOnReturn, checked by TLC.',
-        "note": 'Trusted: detsched shims; scripted emitters and recording handlers are harness-side subclasses of the public EventEmitter / FileSystemEventHandler. Bounded: <=2 application threads, <=3 handlers, 2 watches, <=3 events per emitter, preemption bound 1 (quick) / 2 (thorough). Clauses owned by a sibling property are left to its check.',
+        "note": 'Trusted: detsched shims; scripted emitters and recording handlers are harness-side subclasses of the public EventEmitter / FileSystemEventHandler. Bounded: <=2 application threads, <=3 handlers, 2 watches (10 spellings of 5 watch identities on one path in the identity family), <=3 events per emitter, preemption bound 1 (quick) / 2 (thorough). Clauses owned by a sibling property are left to its check.',
         "technique": "TLA+ model checking (TLC, safety + liveness) + trace validation of real executions under a deterministic scheduler + spec-to-code replay of Observer.tla walks on the real BaseObserver",
     },
     "C06": {
         "engine": "observer",
         "design_ref": "DESIGN.md §4.3, §7 C06",
         "text": "Observer.tla is checked by TLC for deadlock freedom (explicit terminal stutter), for 'no library thread left after stop()+join()' and for the liveness property C06_StopTerminates under weak fairness; the real BaseObserver runs all lifecycle programs (start/schedule/unschedule/unschedule_all/stop twice/join from two threads and from callbacks) under bounded-preemption DFS; the scheduler's exact deadlock detection and the thread table after join() are trace lines judged by ObserverTrace.tla.",
-        "note": 'Trusted: detsched shims; scripted emitters and recording handlers are harness-side subclasses of the public EventEmitter / FileSystemEventHandler. Bounded: <=2 application threads, <=3 handlers, 2 watches, <=3 events per emitter, preemption bound 1 (quick) / 2 (thorough). Clauses owned by a sibling property are left to its check.',
+        "note": 'Trusted: detsched shims; scripted emitters and recording handlers are harness-side subclasses of the public EventEmitter / FileSystemEventHandler. Bounded: <=2 application threads, <=3 handlers, 2 watches (10 spellings of 5 watch identities on one path in the identity family), <=3 events per emitter, preemption bound 1 (quick) / 2 (thorough). Clauses owned by a sibling property are left to its check.',
         "technique": "TLA+ model checking (TLC, safety + liveness) + trace validation of real executions under a deterministic scheduler + spec-to-code replay of Observer.tla walks on the real BaseObserver",
     },
     "C13": {
         "engine": "observer",
         "design_ref": "DESIGN.md §4.3, §7 C13",
         "text": 'Every sequentially valid API call sequence up to length 3 (quick) / 4 (thorough) over 2 watches x 2 handlers is executed on the real observer with a black-box probe after every call (observer.emitters, is_alive(), marker-event routes through the public dispatch_events) and compared by TLC with the reference map of ObserverTrace.tla; schedule() failures (emitter cannot be created / started) at every position; schedule racing with start under DFS. Observer.tla carries C13_RegistryIsMap / C13_NoStaleHandlers / C13_EveryScheduledWatchRuns; the two repaired defects, switched back on, are required to violate them (non-vacuity).',
-        "note": 'Trusted: detsched shims; scripted emitters and recording handlers are harness-side subclasses of the public EventEmitter / FileSystemEventHandler. Bounded: <=2 application threads, <=3 handlers, 2 watches, <=3 events per emitter, preemption bound 1 (quick) / 2 (thorough). Clauses owned by a sibling property are left to its check.',
+        "note": 'Trusted: detsched shims; scripted emitters and recording handlers are harness-side subclasses of the public EventEmitter / FileSystemEventHandler. Bounded: <=2 application threads, <=3 handlers, 2 watches (10 spellings of 5 watch identities on one path in the identity family), <=3 events per emitter, preemption bound 1 (quick) / 2 (thorough). Clauses owned by a sibling property are left to its check.',
         "technique": "TLA+ model checking (TLC, safety + liveness) + trace validation of real executions under a deterministic scheduler + spec-to-code replay of Observer.tla walks on the real BaseObserver",
     },
     "C12": {
